@@ -442,6 +442,17 @@ class Transaction:
                 # Known-pre-commit-point failure - safe to clean up written files
                 self._rollback()
                 raise e
+            except BaseException:
+                # KeyboardInterrupt / SystemExit delivered somewhere inside the
+                # commit: the version hint may already have been flipped (the
+                # interrupt can land after the commit point and before
+                # _finish_committed()). The outcome is unknown, so treat it
+                # like an ambiguous commit: keep every written file and mark
+                # the transaction finished, otherwise the context manager's
+                # __exit__ -> rollback() would delete the data files of a
+                # committed snapshot.
+                self._rollback(delete_files=False)
+                raise
 
         # This line should not be reached if max_retries > 0, but added for completeness
         self._rollback()
